@@ -182,6 +182,27 @@ def _main(args, pid, tier, hmod, seed, t_start, workdir):
         violations.append({"cond": f["witness"]["cond"], "inputs": f["witness"]["inputs"], "detail": r["detail"],
                            "found_by": f"regression input of fixed finding {f['id']}"})
 
+    # -------- violations that are exactly a listed known finding (same call site / input class, same failure) are
+    # reported as KNOWN-FINDING; anything else in the same conditions is still a VIOLATION
+    import re
+    remaining = []
+    for v in violations:
+        hit = None
+        for f in known:
+            cov = f.get("covers")
+            if not cov:
+                continue
+            if any(v["cond"].startswith(pfx) for pfx in cov.get("conditions", [])) and re.search(cov.get("detail_regex", "."), v["detail"] or ""):
+                hit = f
+                break
+        if hit is None:
+            remaining.append(v)
+        else:
+            line = f"KNOWN-FINDING: property={pid} {hit['what']} [{hit['id']}]"
+            if line not in kf_lines:
+                kf_lines.append(line)
+    violations = remaining
+
     # -------- report
     for line in kf_lines:
         print(line)
